@@ -199,7 +199,7 @@ def gen_simple(env):
         return R.SetReg('hue', R.Var(ch.pick(env.vars)))
     if k == 6:
         return R.Get(R.Str(ch.pick(['A', 'B', 'Q'])))
-    return R.Units(ch.pick(['raw', 'logical']))
+    return R.Units(ch.pick(['raw', 'logical', 'rgb'], [3, 3, 1]))
 
 
 def gen_stmt(env, budget, depth):
